@@ -120,9 +120,14 @@ func registerVrt(p *Program) {
 		fr.m.yield()
 		return nil
 	}
+	intr["vrtYieldOnce"] = func(fr *frame, a []value) value {
+		fr.m.yieldOnce()
+		return nil
+	}
 	intr["vrtFireTimers"] = func(fr *frame, a []value) value {
 		return fr.m.fireTimers()
 	}
+	intr["vrtAdvance"] = func(fr *frame, a []value) value { return fr.m.advance(a[0]) }
 	intr["vrtSlept"] = func(fr *frame, a []value) value { return len(fr.m.sleeps) > 0 }
 	intr["vrtSleepReset"] = func(fr *frame, a []value) value { fr.m.sleeps = nil; return nil }
 	intr["vrtSymbolic"] = func(fr *frame, a []value) value { return true }
